@@ -2,7 +2,7 @@
    Only theorem statements closed by `exact`, each followed by Print Assumptions.
    Models: ModelFib.v (tree_* = fw/table/fib-strategy-tree.go, ht_* = fw/table/fib-strategy-hashtable.go with virtual
    depth m, spec_* = a flat map name -> entry).  run_X ops = the table after the operation history ops. *)
-From Tables Require Import ModelAssoc ModelFib Assoc Lpm FibTree FibHash.
+From Tables Require Import ModelAssoc ModelTree ModelFib ModelRib Assoc Tree Lpm FibTree FibHash Rib.
 From Coq Require Import Permutation.
 Local Open Scope nat_scope.
 
@@ -29,6 +29,39 @@ Theorem fib_ht_refines : forall (m : nat) (ops : list fibop) (n : name), 1 <= m 
   ht_find_strat m (run_ht m ops) n = spec_find_strat (run_spec ops) n.
 Proof. exact ht_refines. Qed.
 Print Assumptions fib_ht_refines.
+
+
+(* the same over the extended alphabet: histories that also contain the batch operation ReplaceNextHopsEnc (which, under one
+   acquisition of the write lock, clears and re-inserts the next hops of every listed prefix, in order) *)
+Theorem fib_tree_refines_batch : forall (bs : list bop) (n : name),
+  tree_find_nh (run_tree_b bs) n = spec_find_nh (run_spec_b bs) n /\
+  tree_find_strat (run_tree_b bs) n = spec_find_strat (run_spec_b bs) n.
+Proof.
+  exact (fun bs n => eq_ind_r (fun t => tree_find_nh t n = spec_find_nh (run_spec_b bs) n /\ tree_find_strat t n = spec_find_strat (run_spec_b bs) n)
+           (eq_ind_r (fun s => tree_find_nh (run_tree (expand bs)) n = spec_find_nh s n /\ tree_find_strat (run_tree (expand bs)) n = spec_find_strat s n)
+              (fib_tree_refines (expand bs) n) (run_spec_b_expand bs)) (run_tree_b_expand bs)).
+Qed.
+Print Assumptions fib_tree_refines_batch.
+
+Theorem fib_ht_refines_batch : forall (m : nat) (bs : list bop) (n : name), 1 <= m ->
+  Permutation (ht_find_nh m (run_ht_b m bs) n) (spec_find_nh (run_spec_b bs) n) /\
+  ht_find_strat m (run_ht_b m bs) n = spec_find_strat (run_spec_b bs) n.
+Proof.
+  exact (fun m bs n Hm => eq_ind_r (fun h => Permutation (ht_find_nh m h n) (spec_find_nh (run_spec_b bs) n) /\ ht_find_strat m h n = spec_find_strat (run_spec_b bs) n)
+           (eq_ind_r (fun s => Permutation (ht_find_nh m (run_ht m (expand bs)) n) (spec_find_nh s n) /\ ht_find_strat m (run_ht m (expand bs)) n = spec_find_strat s n)
+              (ht_refines m (expand bs) n Hm) (run_spec_b_expand bs)) (run_ht_b_expand m bs)).
+Qed.
+Print Assumptions fib_ht_refines_batch.
+
+(* what one update of a batch means on the flat map: the prefix holds exactly the listed next hops afterwards (none for an
+   empty list), keeps its strategy, and no other prefix changes -- so the rest of the batch is still applied after an
+   emptied prefix *)
+Theorem replace_update_meaning : forall (s : spec) (u : name * list nexthop), NoDup (map fst (snd u)) ->
+  let s' := fold_left spec_step (expand_update u) s in
+  nhs (sget s' (fst u)) = snd u /\ strat (sget s' (fst u)) = strat (sget s (fst u)) /\
+  forall p, p <> fst u -> sget s' p = sget s p.
+Proof. exact replace_update_effect. Qed.
+Print Assumptions replace_update_meaning.
 
 (* the two implementations are observationally identical *)
 Theorem fib_tree_ht_equiv : forall (m : nat) (ops : list fibop) (n : name), 1 <= m ->
